@@ -123,3 +123,15 @@ Theorem C11_concat_elements : forall (A : Type) (ts : list (tensor A)) ax d r, c
 Proof. exact @concat_all_spec. Qed.
 Print Assumptions C11_concat_elements.
 Print Assumptions C11_broadcast_associative.
+
+(* permute_dims / matrix_transpose (ONNX Transpose): out.shape[i] = x.shape[perm[i]] and out[idx] = x[src] with
+   src[perm[i]] = idx[i], for every permutation and every in-bounds index *)
+From ND Require Import Ndx.TransposeFacts.
+Theorem C11_permute_dims_law : forall (A : Type) (t : tensor A) perm d idx,
+  NoDup perm -> length perm = rank t -> (forall p, In p perm -> (p < rank t)%nat) ->
+  Tensor.in_bounds (map (fun p => nth p (shape t) 0%nat) perm) idx ->
+  shape (t_transpose t perm d) = map (fun p => nth p (shape t) 0%nat) perm /\
+  exists src, get (t_transpose t perm d) idx d = get t src d /\ length src = rank t /\
+              forall i, (i < rank t)%nat -> nth (nth i perm 0%nat) src 0%nat = nth i idx 0%nat.
+Proof. exact @transpose_spec. Qed.
+Print Assumptions C11_permute_dims_law.
